@@ -157,26 +157,27 @@ func (gp *GenginePool) getGengine() (*gengineWrapper, error) {
 	for {
 		gp.getEngineLock.Lock()
 		//check if there has enough resource in pool
-		numFree := len(gp.freeGengines)
-		if numFree > 0 {
-			gp.runningLock.Lock()
+		//the lists are appended to by putGengineLocked concurrently, so even their length is read under their lock
+		gp.runningLock.Lock()
+		if len(gp.freeGengines) > 0 {
 			gw := gp.freeGengines[0]
 			gp.freeGengines = gp.freeGengines[1:]
 			gp.runningLock.Unlock()
 			gp.getEngineLock.Unlock()
 			return gw, nil
 		}
+		gp.runningLock.Unlock()
 
 		//check if there has addition resource
-		numAddition := len(gp.additionGengines)
-		if numAddition > 0 {
-			gp.additionLock.Lock()
+		gp.additionLock.Lock()
+		if len(gp.additionGengines) > 0 {
 			gw := gp.additionGengines[0]
 			gp.additionGengines = gp.additionGengines[1:]
 			gp.additionLock.Unlock()
 			gp.getEngineLock.Unlock()
 			return gw, nil
 		}
+		gp.additionLock.Unlock()
 
 		gp.getEngineLock.Unlock()
 	}
